@@ -76,6 +76,9 @@ def _wrap(stream, inner):
 # ----------------------------------------------------------------------------------------------
 # histories on one real world
 
+REPS = {"float64": np.float64, "float32": np.float32, "int64": lambda x: np.int64(int(x)), "bool": lambda x: bool(x)}
+
+
 class HistSession:
     """one real grid with real agents, real state components and real actors"""
 
@@ -184,15 +187,31 @@ class HistSession:
                     facts["outside"] = sp is not None and not bool(sp.contains(action))
                 except Exception:  # noqa: BLE001
                     facts["outside"] = True
-                pre_ammo = getattr(agent, "_ammo", None)
+                pre_ammo = getattr(agent, "ammo", None)
                 with oracle.scripted(list(tape)):
                     st, val = guarded(lambda: self.actor.process_action(agent, {"attack": action}))
                 if st == "ok":
                     facts["hits"] = len(val[1])
-                    facts["ammo_out"] = bool(pre_ammo) and getattr(agent, "_ammo", None) == 0
+                    facts["ammo_out"] = bool(pre_ammo) and getattr(agent, "ammo", None) == 0
         if st == "ok":
-            return ["ok", self.w.dyn_wire()], facts
+            return ["ok", self._dump()], facts
         return ["err", st], facts
+
+    def _dump(self):
+        """the world as it is - read while the arrays the CALLER owns (the agents' configured initial positions) hold
+        other numbers: the caller may edit them in place between episodes (to shift the next start), and an agent's
+        position is a value of its own, not a view of the configuration"""
+        held = []
+        for ag in self.w.agent_list:
+            ip = getattr(ag, "initial_position", None)
+            if isinstance(ip, np.ndarray) and ip.shape == (2,):
+                held.append((ip, ip.copy()))
+                ip[:] = (-7, -7)
+        try:
+            return self.w.dyn_wire()
+        finally:
+            for ip, saved in held:
+                ip[:] = saved
 
 
 def run_ops(sess, ops):
@@ -780,17 +799,27 @@ class C03Prop(core.Prop):
         e, _ = sess.do(d["first"])
         if e[0] != "ok":
             return None
-        st = "ok"
+        st, judge = "ok", "WInv"
         for a, what, val in d["writes"]:
             ag = sess.w.agent_list[a]
             if what == "health":
                 st, _ = guarded(lambda: setattr(ag, "health", ag.health + gridw.fl(val)))
+            elif what == "health_rep":
+                # a value of a type the setter does not take (a numpy scalar, a bool): it is REJECTED, and a rejected
+                # write leaves a consistent agent behind (zero is the interesting value: health and activity go
+                # together).  Were such a value accepted, writing zero would be the caller's business: not judged.
+                rep, v = val
+                st2, _ = guarded(lambda: setattr(ag, "health", REPS[rep](gridw.fl(v))))
+                if st2 == "ok":
+                    judge = "none"
+                elif st2 != "assertion":
+                    st = st2
             else:
                 st, _ = guarded(lambda: setattr(ag, "ammo", int(val)))
             if st != "ok":
                 break
         line = wire.enc(["gwinv", sess.stat, sess.w.dyn_wire()])
-        tags = ["stream:setter", "judge:WInv"] + sorted({"write:" + w[1] for w in d["writes"]})
+        tags = ["stream:setter", "judge:" + judge] + sorted({"write:" + w[1] for w in d["writes"]})
         c = C03Case(dict(d), line, "err:" + st if st != "ok" else "", key=_h(line), nontrivial=True, tags=tags)
         c.stream, c.inner = "setter", None
         return c
@@ -806,6 +835,8 @@ class C03Prop(core.Prop):
                     writes.append([a, "health", rng.choice([[1, 4], [1, 1], [5, 1], [1023, 1024]])])
                 if ag["has_ammo"] and rng.random() < 0.6:
                     writes.append([a, "ammo", rng.choice([-1, -3, 0])])
+                if rng.random() < 0.3:
+                    writes.append([a, "health_rep", [rng.choice(sorted(REPS)), rng.choice([[0, 1], [0, 1], [1, 2], [1, 1]])]])
             d = {"stream": "setter", "cfg": cfg, "first": gen_reset(rng, cfg["world"]), "writes": writes}
             try:
                 c = self._setter_case(d)
